@@ -404,6 +404,7 @@ fn leakfn(case: &Value, m: &mut Map<String, Value>) {
         Err(_) => return res_other(m, "inadm", "not utf-8"),
     };
     let date = chrono::NaiveDate::from_ymd_opt(2015, 8, 30).unwrap();
+    crate::leak::start();
     let r = guarded(|| {
         let mut out: Vec<(String, String)> = Vec::new();
         let k = match KSecretKey::from_str(&ss) {
@@ -448,9 +449,16 @@ fn leakfn(case: &Value, m: &mut Map<String, Value>) {
         ];
         (out, keys)
     });
+    let records = crate::leak::stop();
     match r {
         Err(p) => res_other(m, "panic", &p),
-        Ok((renders, keys)) => {
+        Ok((mut renders, keys)) => {
+            // log records at debug level or above are renderings too (trace-level records are not covered)
+            for (level, msg) in records {
+                if level != "TRACE" {
+                    renders.push((format!("log.{}", level), msg));
+                }
+            }
             let mut needles = vec![crate::leak::needle("secret", &secret, false)];
             let mut pref = b"AWS4".to_vec();
             pref.extend_from_slice(&secret);
